@@ -18,13 +18,13 @@ open Asynkit.Kernel
 def excOf (s : State) (cd : Bool) : Exc := .intr s.nexc cd
 
 /-- `throw_makes_runnable`: for a task that is not done and not running - never started, blocked
-    on a future, woken but not yet run, or merely queued - and not in a pending-cancellation state,
+    on a future, woken but not yet run, or merely queued - and not in a pending-cancellation state (`_must_cancel` unset; if it is not blocked, its finished waiter not cancelled),
     `task_throw` succeeds and afterwards the task has exactly one ready handle, `step(exc)`, its
     wake-up is registered nowhere, `_fut_waiter` is `None`, and it is reported runnable. -/
 theorem throw_makes_runnable {s : State} (h : Reachable s) (t : TaskId) (cd : Bool)
     (hd : (s.tasks t).done = false) (hc : s.ctx ≠ .inTask t)
-    (hmc : isBlocked s t = false →
-      (s.tasks t).mustCancel = false ∧ fwCancelled s (s.tasks t) = false) :
+    (hm : (s.tasks t).mustCancel = false)
+    (hfc : isBlocked s t = false → fwCancelled s (s.tasks t) = false) :
     (taskThrow s t cd).2 = .ok ∧
     H (taskThrow s t cd).1 t = 1 ∧
     Handle.step t (some (excOf s cd)) ∈ (taskThrow s t cd).1.ready ∧
@@ -39,13 +39,13 @@ theorem throw_makes_runnable {s : State} (h : Reachable s) (t : TaskId) (cd : Bo
       ((taskThrow s t cd).1.tasks t).futWaiter = none ∧
       ((taskThrow s t cd).1.tasks t).done = false ∧ (taskThrow s t cd).1.ctx = s.ctx := by
     unfold taskThrow
-    simp only [hd]
+    simp only [hd, hm]
     cases hbo : blockedOn s (s.tasks t) with
     | some f => simp [throwFin, setTask, setFut, excOf, hd]
     | none =>
       have hb := blockedOn_none hbo
-      have ⟨h1, h2⟩ := hmc hb
-      simp only [h1, h2]
+      have h2 := hfc hb
+      simp only [h2]
       have hH := hi.runnable t hd hc hb
       cases hpop : popLast (isOf t) s.ready with
       | none => have := popLast_none.mp hpop; simp only [H] at hH; omega
@@ -62,9 +62,8 @@ theorem throw_makes_runnable {s : State} (h : Reachable s) (t : TaskId) (cd : Bo
     cancellation (`_must_cancel`, or a cancelled `_fut_waiter`) are refused with RuntimeError and
     nothing changes (except the harness-level counter that names exception objects). -/
 theorem throw_refused_no_change {s : State} (h : Reachable s) (t : TaskId) (cd : Bool)
-    (hr : (s.tasks t).done = true ∨ s.ctx = .inTask t ∨
-      (isBlocked s t = false ∧
-        ((s.tasks t).mustCancel = true ∨ fwCancelled s (s.tasks t) = true))) :
+    (hr : (s.tasks t).done = true ∨ s.ctx = .inTask t ∨ (s.tasks t).mustCancel = true ∨
+      (isBlocked s t = false ∧ fwCancelled s (s.tasks t) = true)) :
     taskThrow s t cd = ({ s with nexc := s.nexc + 1 }, .refused) := by
   have hi := reachable_inv h
   unfold taskThrow
@@ -73,30 +72,33 @@ theorem throw_refused_no_change {s : State} (h : Reachable s) (t : TaskId) (cd :
   | true => simp
   | false =>
     simp only [Bool.false_eq_true, if_false]
-    have hnb : (s.ctx = .inTask t ∨ (isBlocked s t = false ∧
-        ((s.tasks t).mustCancel = true ∨ fwCancelled s (s.tasks t) = true))) := by
-      rcases hr with hr | hr
-      · rw [hd] at hr; cases hr
-      · exact hr
-    have hb : isBlocked s t = false := by
-      rcases hnb with hc | hc
-      · simp [isBlocked, (hi.cur t hc).2.2]
-      · exact hc.1
-    have hbo : blockedOn s (s.tasks t) = none := by
-      cases hbo : blockedOn s (s.tasks t) with
-      | none => rfl
-      | some f =>
-        have := blockedOn_some hbo
-        simp [isBlocked, this.1, this.2] at hb
-    simp only [hbo]
-    rcases hnb with hc | ⟨_, hc⟩
-    · have hH := (hi.cur t hc).2.1
-      have hpop : popLast (isOf t) s.ready = none := popLast_none.mpr hH
-      simp only [hpop, hc, if_true]
-      split <;> rfl
-    · have : ((s.tasks t).mustCancel || fwCancelled s (s.tasks t)) = true := by
-        rcases hc with hc | hc <;> simp [hc]
-      simp [this]
+    cases hm : (s.tasks t).mustCancel with
+    | true => simp
+    | false =>
+      simp only [Bool.false_eq_true, if_false]
+      have hnb : (s.ctx = .inTask t ∨ (isBlocked s t = false ∧ fwCancelled s (s.tasks t) = true)) := by
+        rcases hr with hr | hr | hr | hr
+        · rw [hd] at hr; cases hr
+        · exact Or.inl hr
+        · rw [hm] at hr; cases hr
+        · exact Or.inr hr
+      have hb : isBlocked s t = false := by
+        rcases hnb with hc | hc
+        · simp [isBlocked, (hi.cur t hc).2.2]
+        · exact hc.1
+      have hbo : blockedOn s (s.tasks t) = none := by
+        cases hbo : blockedOn s (s.tasks t) with
+        | none => rfl
+        | some f =>
+          have := blockedOn_some hbo
+          simp [isBlocked, this.1, this.2] at hb
+      simp only [hbo]
+      rcases hnb with hc | ⟨_, hc⟩
+      · have hH := (hi.cur t hc).2.1
+        have hpop : popLast (isOf t) s.ready = none := popLast_none.mpr hH
+        simp only [hpop, hc, if_true]
+        split <;> rfl
+      · simp [hc]
 
 /-- `throw_exactly_once` (ghost delivery log): in every reachable state, for every interrupt id,
     "queued as a `step(exc)` handle" and "raised inside a task body" together happen at most once -
@@ -139,6 +141,7 @@ theorem throw_stays_queued {s : State} (t : TaskId) (e : Exc) (ev : Event)
   | setExc f => simp only [step]; split; exact mem_completeFut hq; exact hq
   | cancelFut f => simp only [step]; split; exact mem_completeFut hq; exact hq
   | addCb f k => simp only [step]; split <;> simp [setFut, callSoon, hq]
+  | setNoCancel f b => simp [step, setFut, hq]
   | cancelTask u => simp only [step]; split; exact hq; exact mem_cancelTask hq
   | callSoonOther u => simp [step, callSoon, hq]
   | callSoonCb k => simp [step, callSoon, hq]
@@ -148,6 +151,8 @@ theorem throw_stays_queued {s : State} (t : TaskId) (e : Exc) (ev : Event)
     split
     · exact hq
     · split
+      · exact hq
+      split
       · simp [throwFin, setTask, setFut, hq]
       · split
         · exact hq
@@ -211,6 +216,8 @@ theorem awaited_untouched {s : State} (h : Reachable s) (t : TaskId) (cd : Bool)
     split
     · left; rfl
     · split
+      · left; rfl
+      split
       · rename_i g _
         simp only [throwFin, setTask, setFut]
         by_cases hfg : f = g
@@ -234,6 +241,8 @@ theorem awaited_untouched {s : State} (h : Reachable s) (t : TaskId) (cd : Bool)
       split
       · intro h'; cases h'
       · split
+        · intro h'; cases h'
+        split
         · intro _; simp [throwFin, setTask]
         · split
           · intro h'; cases h'
@@ -257,7 +266,8 @@ theorem no_kernel_error {s : State} (h : Reachable s) : s.err = false := (reacha
 /-- `interrupt_runs_next`: `await task_interrupt(t, e)` executed by the running task `a`
     (= task_throw; _task_reinsert(t, 0); sleep(0)) leaves `t`'s `step(e)` handle at the head of the
     ready queue and `a`'s own handle at its end; the next thing the loop does is raise `e` in `t`;
-    `a` is not current and resumes only through its queued handle. -/
+    `a` is not current and resumes only through its queued handle.  (An accepted throw implies that
+    the target carried no cancellation request, so it is `e` itself that is raised.) -/
 theorem interrupt_runs_next {s : State} (h : Reachable s) (a t : TaskId) (cd : Bool)
     (_ha : s.ctx = .inTask a) (hok : (taskThrow s t cd).2 = .ok) :
     let s1 := (taskThrow s t cd).1
@@ -268,22 +278,27 @@ theorem interrupt_runs_next {s : State} (h : Reachable s) (a t : TaskId) (cd : B
     s3.ready.getLast? = some (.step a none) ∧
     s3.ctx = .idle ∧
     (beginHandle s3).1.ctx = .inTask t ∧
-    (beginHandle s3).1.log = s.log ++ [(t, excOf s cd)] := by
+    (beginHandle s3).1.log = s.log ++ [(t, excOf s cd)] ∧
+    (s.tasks t).mustCancel = false := by
   intro s1 s2 s3
   have hi := reachable_inv h
-  have hmcInv := reachable_invMC h
   -- the throw was accepted: shape of s1
   have hs1 : ∃ r, s1.ready = r ++ [.step t (some (excOf s cd))] ∧ r.countP (isOf t) = 0 ∧
       s1.ctx = s.ctx ∧ s1.log = s.log ∧ (s1.tasks t).mustCancel = false ∧
+      (s.tasks t).mustCancel = false ∧
       (s1.tasks t).done = false := by
     have hd : (s.tasks t).done = false := by
       cases hd : (s.tasks t).done with
       | false => rfl
       | true => simp [taskThrow, hd] at hok
+    have hm : (s.tasks t).mustCancel = false := by
+      cases hm : (s.tasks t).mustCancel with
+      | false => rfl
+      | true => simp [taskThrow, hd, hm] at hok
     simp only [s1]
     revert hok
     unfold taskThrow
-    simp only [hd]
+    simp only [hd, hm]
     cases hbo : blockedOn s (s.tasks t) with
     | some f =>
       intro _
@@ -292,18 +307,17 @@ theorem interrupt_runs_next {s : State} (h : Reachable s) (a t : TaskId) (cd : B
       have hnc : s.ctx ≠ .inTask t := by
         intro hc; have := (hi.cur t hc).2.2; rw [hfw.1] at this; cases this
       have hH := (hi.blocked t hd hnc hb).1
-      have hm0 := hmcInv t hb
       exact ⟨s.ready, by simp [throwFin, setTask, setFut, excOf], hH, rfl, rfl,
-        by simp [throwFin, setTask, setFut, hm0], by simp [throwFin, setTask, setFut, hd]⟩
+        by simp [throwFin, setTask, setFut, hm], trivial, by simp [throwFin, setTask, setFut, hd]⟩
     | none =>
       have hb := blockedOn_none hbo
       simp only
-      cases hmc : ((s.tasks t).mustCancel || fwCancelled s (s.tasks t)) with
+      cases hmc : fwCancelled s (s.tasks t) with
       | true => simp
       | false =>
         simp only [Bool.false_eq_true, if_false]
         cases hpop : popLast (isOf t) s.ready with
-        | none => simp only; split <;> simp
+        | none => simp only; intro hok'; by_cases hcx : s.ctx = Ctx.inTask t <;> simp [hcx] at hok'
         | some hr =>
           obtain ⟨hh, r⟩ := hr
           intro _
@@ -313,13 +327,9 @@ theorem interrupt_runs_next {s : State} (h : Reachable s) (a t : TaskId) (cd : B
           have hnc : s.ctx ≠ .inTask t := by
             intro hc; have := (hi.cur t hc).2.1; omega
           have h1 := hi.runnable t hd hnc hb
-          have hmc' : (s.tasks t).mustCancel = false := by
-            cases hm : (s.tasks t).mustCancel with
-            | false => rfl
-            | true => simp [hm] at hmc
           exact ⟨r, by simp [throwFin, setTask, excOf], by omega, rfl, rfl,
-            by simp [throwFin, setTask, hmc'], by simp [throwFin, setTask, hd]⟩
-  obtain ⟨r, hr1, hr0, hc1, hl1, hm1, hd1⟩ := hs1
+            by simp [throwFin, setTask, hm], trivial, by simp [throwFin, setTask, hd]⟩
+  obtain ⟨r, hr1, hr0, hc1, hl1, hm1, hnb, hd1⟩ := hs1
   -- popLast on r ++ [step t e] with no other handle of t picks the last element
   have hpop : popLast (isOf t) s1.ready = some (.step t (some (excOf s cd)), r) := by
     rw [hr1]
@@ -343,7 +353,7 @@ theorem interrupt_runs_next {s : State} (h : Reachable s) (a t : TaskId) (cd : B
   have hs3c : s3.ctx = .idle := by simp [s3, endStep, callSoon]
   have hs3t : s3.tasks = s1.tasks := by simp [s3, hs2, endStep, callSoon]
   have hs3l : s3.log = s.log := by simp [s3, hs2, endStep, callSoon, hl1]
-  refine ⟨hre, by simp [hs3r], by rw [hs3r, ← List.cons_append, List.getLast?_concat], hs3c, ?_, ?_⟩
+  refine ⟨hre, by simp [hs3r], by rw [hs3r, ← List.cons_append, List.getLast?_concat], hs3c, ?_, ?_, hnb⟩
   · simp [beginHandle, hs3c, hs3r, runStep, hs3t, hd1, setTask]
   · simp [beginHandle, hs3c, hs3r, runStep, hs3t, hd1, hm1, setTask, hs3l]
 
